@@ -247,6 +247,45 @@ def t_compute_outputs(eng):
         got = set(written_name(k, t) for k, t in inv.get(q, []))
         bad = sorted(str(x) for x in got if not (x[0] == 'attr' and x[1] in allowed))
         eng.oblige(n + q + '-writes-only-its-declared-outputs', not bad, detail=str(bad))
+    # a request (near field / far field) is a function of (model, currents, request): it does not READ what an earlier request
+    # left in its own result attributes -- the first access to each declared output is a store
+    for q in ('Mininec.compute_near_field', 'Mininec.compute_far_field'):
+        outs = declared[q]
+        fnode = eng.get_fnode(q)
+        stored, early = set(), []
+
+        def simple(st):
+            loads = []
+            for t in ast.walk(st):
+                if isinstance(t, ast.Attribute) and isinstance(t.ctx, ast.Load) and isinstance(t.value, ast.Name) \
+                        and t.value.id == 'self' and t.attr in outs:
+                    loads.append(t.attr)
+                if isinstance(t, ast.Call) and ast.unparse(t.func) in ('getattr', 'hasattr') and len(t.args) >= 2 \
+                        and ast.unparse(t.args[0]) == 'self' and isinstance(t.args[1], ast.Constant) and t.args[1].value in outs:
+                    loads.append(t.args[1].value)
+            for a in loads:
+                if a not in stored:
+                    early.append((a, getattr(st, 'lineno', 0)))
+            for t in ast.walk(st):
+                if isinstance(t, ast.Attribute) and isinstance(t.ctx, ast.Store) and isinstance(t.value, ast.Name) \
+                        and t.value.id == 'self' and t.attr in outs:
+                    stored.add(t.attr)
+
+        def scan(stmts):
+            for st in stmts:
+                if isinstance(st, (ast.If, ast.For, ast.While, ast.With, ast.Try)):
+                    hdr = [getattr(st, 'test', None), getattr(st, 'iter', None)]
+                    for h in hdr:
+                        if h is not None:
+                            simple(ast.Expr(h, lineno=st.lineno))
+                    for fld in ('body', 'orelse', 'finalbody'):
+                        scan(getattr(st, fld, []) or [])
+                    for h in getattr(st, 'handlers', []) or []:
+                        scan(h.body)
+                else:
+                    simple(st)
+        scan(fnode.body)
+        eng.oblige(n + q + '-does-not-read-the-result-of-an-earlier-request', not early, detail=str(early[:4]))
     # numeric kernels and writers write no attribute at all
     pure = ['Mininec.integral_i2_i3', 'Mininec.fast_quad', 'Mininec.scalar_potential', 'Mininec.vector_potential',
             'Mininec.psi_near_field_56', 'Mininec.nf_helper', 'Mininec.image_iter', 'Mininec.near_field_iter',
